@@ -102,6 +102,7 @@ func main() {
 		h.fallbackProbe(root.Fork(5_555_555))
 		h.newChainProbe()
 		h.runProbe()
+		h.racedReaderProbe(root.Fork(4_444_444))
 		lap("probes")
 	}
 	if want("seq") {
